@@ -3,6 +3,7 @@
 #ifndef RDCHK_H
 #define RDCHK_H
 #include "tbl.h"
+#include "reader/reader_internal.h"
 #include <stdbool.h>
 #include <unistd.h>
 #include <sys/stat.h>
@@ -65,14 +66,22 @@ static int hist_run(carquet_reader_t* rd, int frg, int c, const tcol_t* col, con
     if (cr) carquet_column_reader_free(cr); v_count("histories_run"); return bad;
 }
 
+/* dot-separated path of a leaf (ancestors below the root, then the leaf), computed from the element list with an explicit stack; malloc'd */
+static char* rd_leaf_path(const carquet_schema_t* s, int leaf_want) { int ne = s->num_elements; if (ne < 2) return NULL; int* rem = (int*)calloc((size_t)ne + 1, sizeof(int)); char** pre = (char**)calloc((size_t)ne + 1, sizeof(char*)); int depth = 0, leaf = 0; char* out = NULL; rem[0] = s->elements[0].num_children; pre[0] = strdup("");
+    for (int e = 1; e < ne && !out; e++) { while (depth > 0 && rem[depth] <= 0) { free(pre[depth]); depth--; } rem[depth]--; const char* nm = s->elements[e].name ? s->elements[e].name : ""; size_t L = strlen(pre[depth]) + strlen(nm) + 2; char* full = (char*)malloc(L); snprintf(full, L, "%s%s%s", pre[depth], depth > 0 ? "." : "", nm);
+        if (leaf < s->num_leaves && s->leaf_indices[leaf] == e) { if (leaf == leaf_want) out = full; else free(full); leaf++; } else { depth++; rem[depth] = s->elements[e].num_children; pre[depth] = full; } }
+    while (depth >= 0) { free(pre[depth]); depth--; } free(rem); free(pre); return out; }
+
 /* ---- batch reader checker ------------------------------------------------------------------------------- */
 /* proj: list of model column indices (may repeat); by_name: resolve through column_names. learned polarity: -1 unknown, 1 bit set means null, 0 bit set means present */
 static int G_polarity = -1;
 static int batch_check(carquet_reader_t* rd, const table_t* t, const int* map, int batch_size, const int* proj, int nproj, int by_name, int threads, const char* ctx, const char* keyprefix) {
     char key[160]; carquet_error_t err = CARQUET_ERROR_INIT; carquet_batch_reader_config_t cfg; carquet_batch_reader_config_init(&cfg); cfg.batch_size = batch_size; cfg.num_threads = threads;
-    int32_t* idx = NULL; const char** names = NULL;
+    int32_t* idx = NULL; const char** names = NULL; static char* G_paths[64]; static int G_npaths = 0; while (G_npaths > 0) free(G_paths[--G_npaths]);   /* path strings of the previous call */
     if (proj && !by_name) { idx = (int32_t*)v_exact((size_t)nproj * 4); for (int i = 0; i < nproj; i++) idx[i] = proj[i]; cfg.column_indices = idx; cfg.num_columns = nproj; }
-    else if (proj) { names = (const char**)v_exact((size_t)nproj * sizeof(char*)); for (int i = 0; i < nproj; i++) names[i] = t->cols[proj[i]].name; cfg.column_names = names; cfg.num_column_names = nproj; }
+    else if (proj) { names = (const char**)v_exact((size_t)nproj * sizeof(char*)); for (int i = 0; i < nproj; i++) names[i] = t->cols[proj[i]].name;
+        if (by_name == 2) { /* by dot-separated path, unless some leaf's own name is that very string (own names win) */ const carquet_schema_t* sc = carquet_reader_schema(rd); for (int i = 0; i < nproj; i++) { char* pth = rd_leaf_path(sc, proj[i]); int shadow = !pth; for (int q = 0; pth && q < sc->num_leaves; q++) { const char* on = sc->elements[sc->leaf_indices[q]].name; if (on && !strcmp(on, pth) && q != proj[i]) shadow = 1; } if (!shadow && G_npaths < 64) { names[i] = pth; G_paths[G_npaths++] = pth; v_count("projections_by_dotted_path"); } else free(pth); } }
+        cfg.column_names = names; cfg.num_column_names = nproj; }
     int np = proj ? nproj : t->ncols;
     carquet_batch_reader_t* br = carquet_batch_reader_create(rd, &cfg, &err);
     if (!br) { snprintf(key, sizeof key, "%s:batch-reader-create-failed", keyprefix); v_viol(key, "%s code=%d %s", ctx, err.code, err.message); free(idx); free(names); return 1; }
